@@ -339,6 +339,7 @@ int sbdf_md_copy(sbdf_metadata_head const* head, sbdf_metadata_head* out)
 {
 	int error;
 	sbdf_metadata* prev, *first, *iter;
+	sbdf_metadata* chain, *chain_last;
 
 	if (!head || !out)
 	{
@@ -372,19 +373,25 @@ int sbdf_md_copy(sbdf_metadata_head const* head, sbdf_metadata_head* out)
 		}
 	}
 
+	/* the copies are collected in a detached chain that is linked in only when complete */
+	chain = chain_last = 0;
+	error = SBDF_OK;
+
 	for (iter = head->first; iter; iter = iter->next)
 	{
 		sbdf_metadata* t = calloc(sizeof(sbdf_metadata), 1);
 		if (!t)
 		{
-			return SBDF_ERROR_OUT_OF_MEMORY;
+			error = SBDF_ERROR_OUT_OF_MEMORY;
+			break;
 		}
 
 		t->name = sbdf_str_copy(iter->name);
 		if (!t->name)
 		{
 			free(t);
-			return SBDF_ERROR_OUT_OF_MEMORY;
+			error = SBDF_ERROR_OUT_OF_MEMORY;
+			break;
 		}
 
 		error = sbdf_obj_copy(iter->value, &t->value);
@@ -392,7 +399,7 @@ int sbdf_md_copy(sbdf_metadata_head const* head, sbdf_metadata_head* out)
 		{
 			sbdf_str_destroy(t->name);
 			free(t);
-			return error;
+			break;
 		}
 
 		if (iter->default_value)
@@ -403,7 +410,7 @@ int sbdf_md_copy(sbdf_metadata_head const* head, sbdf_metadata_head* out)
 				sbdf_obj_destroy(t->value);
 				sbdf_str_destroy(t->name);
 				free(t);
-				return error;
+				break;
 			}
 		}
 		else
@@ -411,16 +418,40 @@ int sbdf_md_copy(sbdf_metadata_head const* head, sbdf_metadata_head* out)
 			t->default_value = 0;
 		}
 
-		if (prev)
+		if (chain_last)
 		{
-			prev->next = t;
+			chain_last->next = t;
 		}
 		else
 		{
-			first = t;
+			chain = t;
 		}
 
-		prev = t;
+		chain_last = t;
+	}
+
+	if (error)
+	{
+		/* append nothing: release the partial chain */
+		while (chain)
+		{
+			sbdf_metadata* next = chain->next;
+			sbdf_obj_destroy(chain->value);
+			sbdf_obj_destroy(chain->default_value);
+			sbdf_str_destroy(chain->name);
+			free(chain);
+			chain = next;
+		}
+		return error;
+	}
+
+	if (prev)
+	{
+		prev->next = chain;
+	}
+	else
+	{
+		first = chain;
 	}
 
 	out->first = first;
